@@ -515,8 +515,24 @@ def run(ctx):
         for cls, init, pos, steps in DIRECTED:
             ctx.run_case(lambda c, k: episode(c, k), {'cls': cls, 'init': init, 'pos': pos, 'steps': [list(x) for x in steps]})
     # streams longer than 8 KiB / 64 KiB with a whole-byte pattern lying across a block edge, searched byte-aligned from several positions
-    for i in range(ctx.scale(6, 60)):
+    # every way a 2- or 3-byte pattern can lie across the edge is enumerated (shared between the shards); random ones follow
+    enumerated = [(block, pb, k, earlier) for block in (8192, 65536) for pb in (2, 3) for k in range(1, pb) for earlier in (False, True)]
+    for i in range(len(enumerated) + ctx.scale(6, 60) * ctx.nshards):
+        if not ctx.mine(i):
+            continue
         rng = ctx.rng
+        if i < len(enumerated):
+            block, pb, k, earlier = enumerated[i]
+            pat = '1' + util.rb(rng, 8 * pb - 2) + '1'
+            nbytes = block + rng.choice([2, 5, 100])
+            at = 8 * (block - k)
+            m = '0' * at + pat + '0' * (8 * nbytes - at - len(pat))
+            if earlier:
+                m = m[:8 * 40] + pat + m[8 * 40 + len(pat):]
+            steps = [['find', ['Bits', pat], True], ['readto', ['Bits', pat], True], ['setpos', 'pos', 8 * 41], ['readto', ['str', pat], True],
+                     ['setpos', 'pos', at - 8], ['find', ['Bits', pat], True], ['rfind', ['Bits', pat], None], ['setpos', 'pos', 0], ['readto', ['Bits', pat], None]]
+            ctx.run_case(lambda c, k_: episode(c, k_), {'cls': util.STREAMS[i % len(util.STREAMS)], 'init': m, 'pos': 0, 'steps': steps})
+            continue
         block = rng.choice([8192, 65536])
         pat = '1' + util.rb(rng, 14) + '1' if rng.random() < 0.6 else '1111101011011110' + '00001010'[:8 * rng.randrange(2)]
         nbytes = block + rng.choice([2, 5, 100])
